@@ -525,11 +525,19 @@ namespace bloch::update {
             std::istringstream in(content);
             std::string line;
             while (std::getline(in, line)) {
-                if (line.find(assetName) == std::string::npos)
-                    continue;
+                // Lines look like "<hex>  <filename>"; the name may carry a binary-mode '*'
+                // marker or a "./" prefix. Require an exact filename match so that entries
+                // such as "<asset>.sig" are not mistaken for the asset itself.
                 std::istringstream parts(line);
                 std::string hash;
-                if (parts >> hash)
+                std::string name;
+                if (!(parts >> hash >> name))
+                    continue;
+                if (name.front() == '*')
+                    name.erase(0, 1);
+                if (name.rfind("./", 0) == 0)
+                    name.erase(0, 2);
+                if (name == assetName)
                     return hash;
             }
             return std::nullopt;
